@@ -179,7 +179,11 @@ func setup(h *History) *env {
 	r.Set("P", func(call goja.FunctionCall) goja.Value {
 		st := goja.VerifC03VMState(r)
 		id := call.Argument(0).ToInteger()
-		e.trace = append(e.trace, fmt.Sprintf("%d:%d,%d,%d,%d", id, st.CallStackLen, st.TryStackLen, st.IterStackLen, st.RefStackLen))
+		ca := 1
+		if st.CurAsyncRunnerNil {
+			ca = 0
+		}
+		e.trace = append(e.trace, fmt.Sprintf("%d:%d,%d,%d,%d,%d", id, st.CallStackLen, st.TryStackLen, st.IterStackLen, st.RefStackLen, ca))
 		e.count++
 		if e.k != 0 && e.count == e.k {
 			switch e.kind {
